@@ -221,18 +221,24 @@ impl InnerLock {
                 .compare_exchange_weak(state, state + READ_LOCKED, Acquire, Relaxed)
                 .is_err()
         {
+            #[cfg(feature = "verif-hooks")]
+            rusl::verif::point(200);
             self.read_contended();
         }
     }
 
     #[inline]
     pub unsafe fn read_unlock(&self) {
+        #[cfg(feature = "verif-hooks")]
+        rusl::verif::point(201);
         let state = self.state.fetch_sub(READ_LOCKED, Release) - READ_LOCKED;
 
         // It's impossible for a reader to be waiting on a read-locked RwLock,
         // except if there is also a writer waiting.
         debug_assert!(!has_readers_waiting(state) || has_writers_waiting(state));
 
+        #[cfg(feature = "verif-hooks")]
+        rusl::verif::point(202);
         // Wake up a writer if we were the last reader and there's a writer waiting.
         if is_unlocked(state) && has_writers_waiting(state) {
             self.wake_writer_or_readers(state);
@@ -264,6 +270,8 @@ impl InnerLock {
                 "too many active read locks on RwLock"
             );
 
+            #[cfg(feature = "verif-hooks")]
+            rusl::verif::point(203);
             // Make sure the readers waiting bit is set before we go to sleep.
             if !has_readers_waiting(state) {
                 if let Err(s) =
@@ -275,6 +283,8 @@ impl InnerLock {
                 }
             }
 
+            #[cfg(feature = "verif-hooks")]
+            rusl::verif::point(204);
             // Wait for the state to change.
             futex_wait_fast(&self.state, state | READERS_WAITING);
 
@@ -299,12 +309,16 @@ impl InnerLock {
             .compare_exchange_weak(0, WRITE_LOCKED, Acquire, Relaxed)
             .is_err()
         {
+            #[cfg(feature = "verif-hooks")]
+            rusl::verif::point(205);
             self.write_contended();
         }
     }
 
     #[inline]
     pub unsafe fn write_unlock(&self) {
+        #[cfg(feature = "verif-hooks")]
+        rusl::verif::point(206);
         let state = self.state.fetch_sub(WRITE_LOCKED, Release) - WRITE_LOCKED;
 
         debug_assert!(is_unlocked(state));
@@ -337,6 +351,8 @@ impl InnerLock {
                 }
             }
 
+            #[cfg(feature = "verif-hooks")]
+            rusl::verif::point(207);
             // Set the waiting bit indicating that we're waiting on it.
             if !has_writers_waiting(state) {
                 if let Err(s) =
@@ -352,10 +368,14 @@ impl InnerLock {
             // we keep that bit on once we manage lock it.
             other_writers_waiting = WRITERS_WAITING;
 
+            #[cfg(feature = "verif-hooks")]
+            rusl::verif::point(208);
             // Examine the notification counter before we check if `state` has changed,
             // to make sure we don't miss any notifications.
             let seq = self.writer_notify.load(Acquire);
 
+            #[cfg(feature = "verif-hooks")]
+            rusl::verif::point(209);
             // Don't go to sleep if the lock has become available,
             // or if the writers waiting bit is no longer set.
             state = self.state.load(Relaxed);
@@ -363,6 +383,8 @@ impl InnerLock {
                 continue;
             }
 
+            #[cfg(feature = "verif-hooks")]
+            rusl::verif::point(210);
             // Wait for the state to change.
             futex_wait_fast(&self.writer_notify, seq);
 
@@ -388,6 +410,8 @@ impl InnerLock {
         // anything, because then the thread that locked the lock will take
         // care of waking up waiters when it unlocks.
 
+        #[cfg(feature = "verif-hooks")]
+        rusl::verif::point(211);
         // If only writers are waiting, wake one of them up.
         if state == WRITERS_WAITING {
             match self.state.compare_exchange(state, 0, Relaxed, Relaxed) {
@@ -402,6 +426,8 @@ impl InnerLock {
             }
         }
 
+        #[cfg(feature = "verif-hooks")]
+        rusl::verif::point(212);
         // If both writers and readers are waiting, leave the readers waiting
         // and only wake up one writer.
         if state == READERS_WAITING + WRITERS_WAITING {
@@ -413,6 +439,8 @@ impl InnerLock {
                 // The lock got locked. Not our problem anymore.
                 return;
             }
+            #[cfg(feature = "verif-hooks")]
+            rusl::verif::point(213);
             if self.wake_writer() {
                 return;
             }
@@ -421,6 +449,8 @@ impl InnerLock {
             state = READERS_WAITING;
         }
 
+        #[cfg(feature = "verif-hooks")]
+        rusl::verif::point(214);
         // If readers are waiting, wake them all up.
         if state == READERS_WAITING
             && self
@@ -433,7 +463,11 @@ impl InnerLock {
     }
 
     fn wake_writer(&self) -> bool {
+        #[cfg(feature = "verif-hooks")]
+        rusl::verif::point(215);
         self.writer_notify.fetch_add(1, Release);
+        #[cfg(feature = "verif-hooks")]
+        rusl::verif::point(216);
         futex_wake(&self.writer_notify, 1).unwrap() != 0
         // Note that FreeBSD and DragonFlyBSD don't tell us whether they woke
         // up any threads or not, and always return `false` here. That still
@@ -444,6 +478,8 @@ impl InnerLock {
     #[inline]
     fn spin_until(&self, f: impl Fn(u32) -> bool) -> u32 {
         let mut spin = 100; // Chosen by fair dice roll.
+        #[cfg(feature = "verif-hooks")]
+        let mut spin = rusl::verif::spin_limit(spin);
         loop {
             let state = self.state.load(Relaxed);
             if f(state) || spin == 0 {
